@@ -53,6 +53,7 @@ type Outcome struct {
 type Item struct {
 	T  string    `json:"t"`            // publish tick loop restart
 	NE bool      `json:"ne,omitempty"` // publish: with transactions
+	TX int       `json:"tx,omitempty"` // publish with transactions: 0 = fresh random transactions, n > 0 = the fixed transaction list no. n (so that several blocks of a chain carry IDENTICAL transaction lists)
 	K  string    `json:"k,omitempty"`  // tick: "h" | "d"
 	SC []Outcome `json:"sc,omitempty"` // tick: DA answers (then cancellation);  loop: answers to header calls
 	SD []Outcome `json:"sd,omitempty"` // loop: answers to data calls
@@ -133,13 +134,35 @@ func genHistory(r *rand.Rand, maxLen int) (uint64, []Item) {
 	n := 3 + r.Intn(maxLen-2)
 	var h []Item
 	blocks := 0
+	// chains in which several non-empty blocks carry the same transaction list (equal DA commitments,
+	// different metadata): 45% of the histories draw most transaction lists from a pool of two
+	dupHeavy := r.Intn(100) < 45
+	pub := func() Item {
+		it := Item{T: "publish", NE: r.Intn(100) >= 30}
+		if it.NE && dupHeavy && r.Intn(100) < 70 {
+			it.TX = 1 + r.Intn(2)
+		}
+		return it
+	}
+	if r.Intn(100) < 15 { // equal lists in consecutive blocks, pending together in one batch, optionally across a restart
+		h = append(h, Item{T: "publish"}, Item{T: "publish", NE: true, TX: 1}, Item{T: "publish", NE: true, TX: 1})
+		blocks += 3
+		if r.Intn(2) == 0 {
+			h = append(h, Item{T: "tick", K: "d", SC: []Outcome{{O: "fail", F: "err"}}}, Item{T: "publish", NE: true, TX: 1})
+			blocks++
+		}
+		if r.Intn(2) == 0 {
+			h = append(h, Item{T: "restart"})
+		}
+		h = append(h, Item{T: "tick", K: "d", SC: genScript(r)})
+	}
 	for i := 0; i < n; i++ {
 		x := r.Intn(100)
 		switch {
 		case x < 34 && blocks < 30:
 			k := 1 + r.Intn(4)
 			for j := 0; j < k && blocks < 30; j++ {
-				h = append(h, Item{T: "publish", NE: r.Intn(100) >= 30})
+				h = append(h, pub())
 				blocks++
 			}
 		case x < 56:
@@ -513,50 +536,62 @@ func (w *world) committed(h uint64) (*types.SignedHeader, *types.Data, bool) {
 	return sh, d, true
 }
 
-// does the blob decode to exactly the committed header / data of some height and verify under the proposer key?
-func (o *oracle) faithful(kind string, blob []byte) (uint64, bool) {
+// Judges one blob handed to the DA layer: it must decode, its signature must verify under the proposer key
+// over the bytes of ITS OWN content (header: ValidateBasic; data: Data.MarshalBinary of the decoded blob), and
+// the decoded item must equal the committed one of that height in the block store (data: including the
+// metadata).  Returns the height the blob claims and "" or the failure class.
+func (o *oracle) judge(kind string, blob []byte) (uint64, string) {
 	w := o.w
 	if kind == "h" {
 		var sh types.SignedHeader
 		if err := sh.UnmarshalBinary(blob); err != nil {
-			return 0, false
+			return 0, "blob-not-faithful"
+		}
+		if sh.ValidateBasic() != nil || sh.Signer.PubKey == nil || !sh.Signer.PubKey.Equals(w.pub) || !bytes.Equal(sh.ProposerAddress, w.gen.ProposerAddress) {
+			return sh.Height(), "header-blob-signature-invalid"
 		}
 		st, _, ok := w.committed(sh.Height())
 		if !ok {
-			return sh.Height(), false
+			return sh.Height(), "blob-not-faithful"
 		}
-		if !bytes.Equal(sh.Hash(), st.Hash()) || !bytes.Equal(sh.Signature, st.Signature) {
-			return sh.Height(), false
+		b1, e1 := sh.MarshalBinary()
+		b2, e2 := st.MarshalBinary()
+		if e1 != nil || e2 != nil || !bytes.Equal(b1, b2) || !bytes.Equal(sh.Hash(), st.Hash()) || !bytes.Equal(sh.Signature, st.Signature) {
+			return sh.Height(), "blob-not-faithful"
 		}
-		if sh.ValidateBasic() != nil || sh.Signer.PubKey == nil || !sh.Signer.PubKey.Equals(w.pub) || !bytes.Equal(sh.ProposerAddress, w.gen.ProposerAddress) {
-			return sh.Height(), false
-		}
-		return sh.Height(), true
+		return sh.Height(), ""
 	}
 	var sd types.SignedData
 	if err := sd.UnmarshalBinary(blob); err != nil || sd.Metadata == nil {
-		return 0, false
-	}
-	_, d, ok := w.committed(sd.Height())
-	if !ok {
-		return sd.Height(), false
-	}
-	if !bytes.Equal(sd.Data.Hash(), d.Hash()) || len(sd.Txs) != len(d.Txs) || len(sd.Txs) == 0 {
-		return sd.Height(), false
-	}
-	for i := range d.Txs {
-		if !bytes.Equal(sd.Txs[i], d.Txs[i]) {
-			return sd.Height(), false
-		}
+		return 0, "blob-not-faithful"
 	}
 	bz, err := sd.Data.MarshalBinary()
 	if err != nil || sd.Signer.PubKey == nil || !sd.Signer.PubKey.Equals(w.pub) || !bytes.Equal(sd.Signer.Address, w.gen.ProposerAddress) {
-		return sd.Height(), false
+		return sd.Height(), "data-blob-signature-invalid"
 	}
 	if v, err := sd.Signer.PubKey.Verify(bz, sd.Signature); err != nil || !v {
-		return sd.Height(), false
+		return sd.Height(), "data-blob-signature-invalid"
 	}
-	return sd.Height(), true
+	_, d, ok := w.committed(sd.Height())
+	if !ok {
+		return sd.Height(), "blob-not-faithful"
+	}
+	dz, err := d.MarshalBinary()
+	if err != nil || !bytes.Equal(bz, dz) || !bytes.Equal(sd.Data.Hash(), d.Hash()) || len(sd.Txs) != len(d.Txs) || len(sd.Txs) == 0 || d.Metadata == nil ||
+		sd.Metadata.Height != d.Metadata.Height || sd.Metadata.Time != d.Metadata.Time || sd.Metadata.ChainID != d.Metadata.ChainID || !bytes.Equal(sd.Metadata.LastDataHash, d.Metadata.LastDataHash) {
+		return sd.Height(), "blob-not-faithful"
+	}
+	for i := range d.Txs {
+		if !bytes.Equal(sd.Txs[i], d.Txs[i]) {
+			return sd.Height(), "blob-not-faithful"
+		}
+	}
+	return sd.Height(), ""
+}
+
+func (o *oracle) faithful(kind string, blob []byte) (uint64, bool) {
+	h, why := o.judge(kind, blob)
+	return h, why == ""
 }
 
 // heights whose committed header (resp. non-empty data) the DA layer has accepted
@@ -638,9 +673,11 @@ func (o *oracle) checkCalls() {
 		}
 		prev := c.vol
 		for i, b := range c.blobs {
-			h, ok := o.faithful(c.kind, b)
-			if !ok {
-				o.fail("blob-not-faithful", fmt.Sprintf("call %d blob %d (%s, height %d) does not decode to the committed item or does not verify under the proposer key", ci, i, c.kind, h))
+			h, why := o.judge(c.kind, b)
+			if why == "blob-not-faithful" {
+				o.fail(why, fmt.Sprintf("call %d blob %d (%s, height %d) does not decode to exactly the committed item of that height", ci, i, c.kind, h))
+			} else if why != "" {
+				o.fail(why, fmt.Sprintf("call %d blob %d (%s, height %d): the signature does not verify under the proposer key over the blob's own content (full nodes reject it)", ci, i, c.kind, h))
 			}
 			if h <= prev {
 				if i == 0 {
@@ -752,6 +789,9 @@ func runCase(seed int64, c int, init uint64, hist []Item, rootDir string) (res *
 					tx := make([]byte, 1+r.Intn(24))
 					r.Read(tx)
 					txs = append(txs, tx)
+				}
+				if it.TX > 0 { // a fixed list: blocks with the same TX have identical transaction lists
+					txs = [][]byte{[]byte(fmt.Sprintf("pool-%d-a", it.TX)), []byte(fmt.Sprintf("pool-%d-b", it.TX))}
 				}
 				w.seq.next = txs
 			} else {
@@ -1035,6 +1075,18 @@ func TestVerif(t *testing.T) {
 				res.Count(k)
 			}
 		}
+		dupSeen := map[int]int{}
+		for _, it := range hist {
+			if it.T == "publish" && it.NE && it.TX > 0 {
+				dupSeen[it.TX]++
+			}
+		}
+		for _, n := range dupSeen {
+			if n > 1 {
+				res.Count("history:blocks-with-identical-tx-lists")
+				break
+			}
+		}
 		for _, b := range cr.chain {
 			if b {
 				res.Count("block:with-txs")
@@ -1081,7 +1133,7 @@ func TestVerif(t *testing.T) {
 		}
 	}
 	res.Distinct = len(distinct)
-	res.Rule = "real aggregator Manager (NewManager, real store/signer/publishBlockInternal) commits 0..30 blocks (30% requested empty; the first block is always the stored genesis block, empty) with initial height 1 (76%), 2 or 7; histories of 3..maxLen items: publish bursts, single header/data submission iterations through the hooks, the unmodified HeaderSubmissionLoop+DataSubmissionLoop goroutines, restarts (NewManager on the same datastore); every DA call answered from a script over {accept all, accept k of n, not-included, in-mempool, too-big, error, deadline(60 s), account-sequence, accepted-but-error k (ack lost), cancel as context.Canceled or as the DA sentinel ErrContextCanceled}, 6% of scripts with a fault burst of 28..33 answers (> maxSubmitAttempts); script end = context cancellation; 70% of histories end with an accepting phase on which the liveness clause is judged; all in synctest bubbles (virtual time; elapsed backoff time is compared); non-trivial = at least one block and one DA call; distinct = distinct (initial height, model history) terms"
+	res.Rule = "real aggregator Manager (NewManager, real store/signer/publishBlockInternal) commits 0..30 blocks (30% requested empty; the first block is always the stored genesis block, empty) with initial height 1 (76%), 2 or 7; in 45% of the histories most non-empty blocks draw their transaction list from a pool of two (identical lists in several, also consecutive, blocks; 15% start with two or three such blocks pending together, optionally across a restart); histories of 3..maxLen items: publish bursts, single header/data submission iterations through the hooks, the unmodified HeaderSubmissionLoop+DataSubmissionLoop goroutines, restarts (NewManager on the same datastore); every DA call answered from a script over {accept all, accept k of n, not-included, in-mempool, too-big, error, deadline(60 s), account-sequence, accepted-but-error k (ack lost), cancel as context.Canceled or as the DA sentinel ErrContextCanceled}, 6% of scripts with a fault burst of 28..33 answers (> maxSubmitAttempts); script end = context cancellation; 70% of histories end with an accepting phase on which the liveness clause is judged; all in synctest bubbles (virtual time; elapsed backoff time is compared); non-trivial = at least one block and one DA call; distinct = distinct (initial height, model history) terms"
 	res.Cases = len(cases)
 	header := "From Coq Require Import NArith List Bool.\nFrom Verif Require Import Model.Submitter Check.SubmitterCheck."
 	path := filepath.Join(e.Out, "cases_C06.v")
